@@ -542,7 +542,8 @@ pub fn rules(d: &Decl) -> Vec<Violation> {
                 }
                 if let VBody::Tuple(t) = &var.body {
                     let skipped = effective(&vo, "skip").map(|s| s.on).unwrap_or(false);
-                    if t.len() > 1 && !skipped {
+                    // (`V()` included: a tuple variant is representable with exactly one field)
+                    if t.len() != 1 && !skipped {
                         out.push(Violation {
                             rule: "multi-field-tuple-variant",
                             stage: 2,
@@ -1215,7 +1216,10 @@ fn random_decl(rng: &mut Rng) -> Decl {
                 let vbody = match rng.below(6) {
                     0 | 1 | 2 => VBody::Unit,
                     3 => VBody::Tuple(mk_fields(rng, 1, false, false)),
-                    4 if messy_v => VBody::Tuple(mk_fields(rng, 2, false, false)),
+                    4 if messy_v => {
+                        let k = if rng.chance(1, 3) { 0 } else { 2 };
+                        VBody::Tuple(mk_fields(rng, k, false, false))
+                    }
                     _ => VBody::Named({
                         let k = rng.range(0, 3);
                         mk_fields(rng, k, true, false)
@@ -1236,7 +1240,7 @@ fn random_decl(rng: &mut Rng) -> Decl {
                 }
                 // a skipped multi-field tuple variant is outside the stated rules either way
                 if let VBody::Tuple(t) = &vbody {
-                    if t.len() > 1 {
+                    if t.len() != 1 {
                         for g in attrs.iter_mut() {
                             g.retain(|o| o.name != "skip");
                         }
